@@ -43,12 +43,12 @@ CHECKS["C15"] = ("Coq theorems: (A) over a pre-lexed stream, parse_meta_list acc
          "Coq proof (induction over fuel / derivations; quantified over all implementers) + per-run differential correspondence")
 CHECKS["C18"] = ("Coq theorems for every declaration (any subset of the eleven words) and every body with any number of variants: the emitted validator accepts exactly the documented table, "
          "words are additive, tuple admits newtype but not conversely, struct/enum words do not mix, one error per non-conforming variant, a union is an error and no body panics, the stand-alone "
-         "ShapeSet API agrees with the derived code. Tied to the code by the exhaustive run-time API (16 sets x 4 shapes), 121 compiled FromDeriveInput receivers x struct/enum/union bodies and all 32 FromVariant subsets.",
+         "ShapeSet API agrees with the derived code. Tied to the code by the exhaustive run-time API (16 sets x 4 shapes), 121 compiled FromDeriveInput receivers + 40 newtype receivers declaring the same sets around an accept-all inner receiver x struct/enum/union bodies and all 32 FromVariant subsets.",
          "Coq proof (case analysis + induction over variant lists) + per-run differential correspondence against compiled receivers")
 CHECKS["C19"] = ("Coq theorems over the mirrored syn::Type grammar (every form, any depth), all query sets, both purposes: the analysis returns exactly the members of the set that occur where they denote "
-         "the parameter (inductive relation occurs_tp: leading unqualified segment, generic arguments, through references/pointers/slices/arrays/tuples/fn and trait-object types, qself only for Declare), "
+         "the parameter (inductive relation occurs_tp: leading unqualified segment, generic arguments - those written on the name of a generic associated type included -, through references/pointers/slices/arrays/tuples/fn and trait-object types, qself only for Declare), "
          "never a name outside the set (type params and lifetimes), collections are unions, non-use positions. Tied to the code by grammar-generated types with parameters planted at use and non-use positions "
-         "(the planting is the ground truth), the syn tree mirrored into the model by the harness. The impl-header half is checked through derive::* (see C10/C06 machinery).",
+         "(the planting is the ground truth), the syn tree mirrored into the model by the harness. The impl-header half is checked through derive::*: the conversion trait's bound (FromMeta; for a newtype receiver the derived trait itself) is on exactly the declared parameters used by parsed fields (the field of a newtype is parsed whatever its options say), no other darling bound, own bounds and where-clause unchanged.",
          "Coq proof (induction over a nested syntax tree against an inductive occurrence relation) + per-run differential correspondence")
 CHECKS["C06"] = ("Coq theorems over a transliteration of core/src/options (all parse_nested chains, parse_attributes / parse_body / validate_body with the accumulator discipline and every `?`): for every declaration "
          "and each of the six derives the outcome is an accepted receiver xor a rejection with at least one error; unions, enums under element-level traits and unrepresentable tuple bodies are rejections. "
@@ -69,9 +69,9 @@ CHECKS["C03"] = ("Coq theorems: with_span only fills an empty span (first writer
          "(B) compiled corpus receivers on faulty inputs parsed from source text (every leaf spanned, inside the input, equal to a node's own range, inside a top-level item named by its location) with the model "
          "compared span for span, (C) scalar targets (rejections spanned inside the value).",
          "Coq proof (induction over error trees; quantified over all implementers / field lists) + per-run differential correspondence with real line/column spans")
-CHECKS["C09"] = (RECV + "Theorems for ANY enum (any variant list, field types, user callables): list arity for every length, one item selects the FIRST non-skipped variant with that effective name and runs its arm, "
+CHECKS["C09"] = (RECV + "Theorems for ANY enum (any variant list, field types, user callables): an item's name is its path as written except that r#name is name, a global path (::name) selects no variant declared without leading colons; list arity for every length (too many: blamed on the first surplus item; a literal: on the literal), one item selects the FIRST non-skipped variant with that effective name and runs its arm, "
          "the string form reaches unit / absentable-newtype variants only, a produced variant is never skipped (list and string forms), word / absent succeed only if declared, every other value kind is an error. "
-         "Tied to the code by all 35 enum receivers of the compiled corpus x every form x every spelling of every variant (identifier, all case rules, skipped ones, unknown names) with Spec/C01.v evaluated on the real output.",
+         "Tied to the code by all 50 enum receivers of the compiled corpus x every form x every spelling of every variant (identifier, all case rules, skipped ones, unknown names, quoted inside the list, ::name, r#name) with Spec/C01.v evaluated on the real output.",
          "Coq proof (induction over variant lists, for any implementers) + specification evaluated on the implementation's output; per-run differential correspondence against compiled receivers")
 CHECKS["C17"] = ("Coq theorems for ANY similarity function: did_you_mean equals the argmax specification (first candidate of maximal similarity among those above the threshold; None iff none exceeds it), feature off = no "
          "suggestion, add_alts never replaces a better or equal suggestion nor removes one, sibling alternates leave every located error (to any depth) unchanged and only touch unknown-field leaves whose whole path is empty; "
@@ -82,12 +82,12 @@ CHECKS["C17"] = ("Coq theorems for ANY similarity function: did_you_mean equals 
 CHECKS["C08"] = ("Coq model Run/Outer.v of the attribute extractor the element-level derives generate (name match, bare / empty / name-value / malformed forms, forward arms, value populator) sharing the item loop and "
          "parser state of Run/Recv.v. Theorems for ANY receiver declaration: the extractor equals the item loop over the CONCATENATION of the selected attributes' items plus the filter of forwarded attributes, so every "
          "partition of the same items (bare / empty attributes interspersed, unrelated attributes anywhere) gives the identical state, value or errors; unselected, unforwarded attributes are inert whatever their tokens; "
-         "the attrs member is exactly the non-consumed attributes selected by forward_attrs, in order. Tied to the code by 69 compiled element-level receivers x elements whose items are split over 0-4 attributes "
+         "the attrs member is exactly the non-consumed attributes selected by forward_attrs, in order. Tied to the code by 71 compiled element-level receivers (two declaring global paths) x elements whose items are split over 0-4 attributes "
          "with noise attributes interleaved, each also run on its canonical single-attribute re-partition (outcomes compared span-insensitively) and on the forwarded-list specification.",
          "Coq proof (fold over attributes = fold over concatenated items, for any receiver) + metamorphic twin and forwarding specification evaluated on the implementation's output; per-run differential correspondence")
 CHECKS["C16"] = ("Coq model Run/Outer.v of the magic members and body conversion (Data::try_from, Fields::try_from, generics mirror, base impls of the element traits, SpannedValue / WithOriginal / Result wrappers). Theorems: element-wise "
-         "conversion succeeds iff every element does and then keeps style and exactly one entry per field / variant in source order; otherwise it fails iff some element fails and reports ALL failures (leaf count = sum); "
-         "a union is an error; a field receiver's ident / vis / ty members are the field's own parts; built-in element targets are projections. Tied to the code by 69 compiled receivers declaring subsets of the magic members x "
+         "conversion succeeds iff every element does and then keeps style and exactly one entry per field / variant in source order; otherwise it fails iff some element fails and reports ALL failures (leaf count = sum) - for an enum body the bundle, in order, of every failing variant's error located under the variant's name; mirrored generics keep the where-clause and one entry per parameter and report every failing parameter; "
+         "a union is an error; a field receiver's ident / vis / ty members are the field's own parts; built-in element targets are projections. Tied to the code by 71 compiled receivers declaring subsets of the magic members x "
          "items of every struct style (0-6 fields), enums (0-6 mixed variants, discriminants), unions, generics with lifetimes / types / consts / where-clauses, every visibility form: pass-through members compared with the "
          "element's parts read directly from syn, kind / style / count of data and fields, Fields<syn::Field> re-printed against the original tokens.",
          "Coq proof (accumulation lemmas, for any element converters) + projection specification evaluated on the implementation's output; per-run differential correspondence")
